@@ -186,6 +186,7 @@ def _setitem(
 
         tofill = array[where]
         for name in what.dtype.names:
+            generic = name
             if is_momentum:
                 generic = _repr_momentum_to_generic.get(name, name)
             tofill[generic] = what[name]
